@@ -3,6 +3,7 @@ class constructors, for every gene of generated layouts (line and ring, gaps on 
 import types
 
 import common
+from unittest import mock
 from common import err_code
 
 PROP = 1
@@ -1107,6 +1108,11 @@ def apply_history_stream(chk, rng, names, n_histories):
         flavour = draw_flavour(rng)
         current_hits = {}
 
+        # in a part of the pipeline histories some profiles are HMMer profiles (their hits come from find_hmmer_hits, which
+        # is replaced) and the others dynamic ones: a gene then carries hits from BOTH sources, which
+        # detect_protoclusters_and_signatures has to merge
+        hmmer_names = set(rng.sample(sorted(names), rng.randint(1, max(1, len(names) - 1)))) if pipeline and rng.random() < 0.5 else set()
+
         def mk_profile(profile, _hits=current_hits):
             def find(_record, _hmmer_hits):
                 # a score of exactly 0 is left to DynamicHit's default argument
@@ -1114,20 +1120,31 @@ def apply_history_stream(chk, rng, names, n_histories):
                                for p, s2 in hs if pname(p) == profile]
                         for gene, hs in _hits.items() if any(pname(p) == profile for p, _ in hs)}
             return DynamicProfile(profile, "d", find)
+
+        def canned_hmmer(_record, _signatures, _database, _groups, _hits=current_hits):
+            from antismash.common.hmm_rule_parser.structures import HMMerHit
+            found = {gene: [HMMerHit(gene, pname(p), 0, 10, 1, 1e-20, s2 / 2) for p, s2 in hs if pname(p) in hmmer_names]
+                     for gene, hs in _hits.items()}
+            return {gene: hs for gene, hs in found.items() if hs}
         ruleset = None
         if pipeline:
             try:
                 if multiplier is None:
-                    ruleset = create_ruleset(rules, dynamic_profiles={p: mk_profile(p) for p in names})
+                    ruleset = create_ruleset(rules, dynamic_profiles={p: mk_profile(p) for p in names if p not in hmmer_names},
+                                             hmm_profiles={p: object() for p in hmmer_names})
+                    if hmmer_names:
+                        chk.count("apply_history_hmmer_and_dynamic_profiles")
                 else:
-                    ruleset = cluster_prediction.Ruleset(tuple(rules), {}, "dummy_seeds", {"cat"}, tool="test_tool",
-                                                         dynamic_profiles={p: mk_profile(p) for p in names},
+                    ruleset = cluster_prediction.Ruleset(tuple(rules), {p: object() for p in hmmer_names}, "dummy_seeds", {"cat"},
+                                                         tool="test_tool",
+                                                         dynamic_profiles={p: mk_profile(p) for p in names if p not in hmmer_names},
                                                          equivalence_groups=set(),
                                                          multipliers=Multipliers(multiplier, 1.0))
                     chk.count("apply_history_ruleset_multiplier")
             except ValueError:
                 chk.count("apply_history_ruleset_rejected")
                 continue
+        lost_hits = []
         calls = [[] for _ in rules]        # per rule: (record index, gene, ctx flat, answer)
         parts_of = {}
         records = []                        # per record: {"arrangement", "length", "outs": per rule}
@@ -1139,6 +1156,15 @@ def apply_history_stream(chk, rng, names, n_histories):
             index = index_of[self.name]
             ctx = enc_ctx(cutoffs[index], circular_origin, [(int(f[1:]), parts_of[int(f[1:])]) for f in feats],
                           {int(k[1:]): [(names[h.query_id], int(round(h.bitscore * 2))) for h in v] for k, v in res.items()})
+            if pipeline and not lost_hits:
+                # every hit given to the pipeline for a gene of the neighbourhood reaches the rule evaluation
+                for gene in feats:
+                    want = sorted((pname(p), s2) for p, s2 in current_hits.get(gene, []))
+                    got = sorted((h.query_id, int(round(h.bitscore * 2))) for h in res.get(gene, []))
+                    if want != got:
+                        lost_hits.append({"gene": gene, "hits_given": want, "hits_handed_to_rule.detect": got,
+                                          "hmmer_profiles": sorted(hmmer_names)})
+                        break
             try:
                 answer = plain_detect(self, name, feats, res, circular_origin=circular_origin)
             except Exception as exc:  # pylint: disable=broad-except
@@ -1170,7 +1196,8 @@ def apply_history_stream(chk, rng, names, n_histories):
                         ruleset = ruleset.copy_with_replacements(rules=list(ruleset.rules))
                         chk.count("apply_history_ruleset_rewrapped")
                     try:
-                        cluster_prediction.detect_protoclusters_and_signatures(record, ruleset)
+                        with mock.patch.object(cluster_prediction, "find_hmmer_hits", side_effect=canned_hmmer):
+                            cluster_prediction.detect_protoclusters_and_signatures(record, ruleset)
                     except Exception as exc:  # pylint: disable=broad-except
                         # everything after apply_cluster_rules (protocluster formation) is C03's subject
                         chk.count("apply_history_pipeline_error_" + type(exc).__name__)
@@ -1195,6 +1222,11 @@ def apply_history_stream(chk, rng, names, n_histories):
                 arr = next_arrangement(rng, arr, cutoff, profs, thresholds)
         finally:
             rp.DetectionRule.detect = plain_detect
+        if lost_hits and not any(v[1].startswith("detect_protoclusters_and_signatures: hits") for v in chk.violations):
+            chk.violation("counterexample", "detect_protoclusters_and_signatures: hits found for a gene do not reach the evaluation of "
+                          "the rules (profile hits of the HMMer search and of dynamic profiles on one gene)",
+                          {"theorem_or_correspondence": "C01 'a profile name is true if it hits the gene' / hits handed to rule.detect",
+                           "input": dict(lost_hits[0], rule_text=text)})
         if len(records) < 2:
             continue
         n_done += 1
